@@ -367,3 +367,93 @@ class patched_np:
             m.np = old
         self.saved = []
         return False
+
+
+# --------------------------------------------------------------------------
+# library-global mutable state (class attributes, module containers, default
+# arguments): fingerprinted once per process, compared and restored after every
+# run so that one run can never influence the next (replay stays a pure function
+# of the schedule); a change is counted and reported in the evidence.
+
+
+def fingerprint(obj, depth=0):
+    if depth > 6:
+        return "..."
+    if isinstance(obj, dict):
+        return ("d",) + tuple((repr(k), fingerprint(v, depth + 1)) for k, v in sorted(obj.items(), key=lambda kv: repr(kv[0])))
+    if isinstance(obj, (list, tuple)):
+        return ("l",) + tuple(fingerprint(v, depth + 1) for v in obj)
+    if isinstance(obj, (set, frozenset)):
+        return ("s",) + tuple(sorted(repr(v) for v in obj))
+    if isinstance(obj, np.ndarray):
+        return ("nd", obj.shape, obj.tobytes())
+    if isinstance(obj, (int, float, str, bool, type(None), complex, np.generic)):
+        return repr(obj)
+    if callable(obj):
+        return ("fn", getattr(obj, "__qualname__", type(obj).__name__))
+    d = getattr(obj, "__dict__", None)
+    if isinstance(d, dict):
+        return ("o", type(obj).__name__, fingerprint(d, depth + 1))
+    return ("x", type(obj).__name__)
+
+
+class GlobalGuard:
+    _instance = None
+
+    @classmethod
+    def get(cls):
+        if cls._instance is None:
+            cls._instance = cls()
+        return cls._instance
+
+    def __init__(self):
+        import copy
+        import inspect
+        self.items = []
+        seen = set()
+
+        def add(label, obj):
+            if isinstance(obj, (dict, list, set)) and id(obj) not in seen:
+                seen.add(id(obj))
+                self.items.append((label, obj, copy.deepcopy(obj), fingerprint(obj)))
+
+        def add_defaults(label, fn):
+            for d in (getattr(fn, "__defaults__", None) or ()):
+                add(label + " default argument", d)
+            for d in (getattr(fn, "__kwdefaults__", None) or {}).values():
+                add(label + " default argument", d)
+
+        for mod in flowdyn_modules():
+            for name, obj in list(vars(mod).items()):
+                if name.startswith("__"):
+                    continue
+                if inspect.isclass(obj) and getattr(obj, "__module__", None) == mod.__name__:
+                    for an, av in list(vars(obj).items()):
+                        if an.startswith("__") and an != "__init__":
+                            continue
+                        if inspect.isfunction(av):
+                            add_defaults("%s.%s.%s" % (mod.__name__, name, an), av)
+                        else:
+                            add("%s.%s.%s" % (mod.__name__, name, an), av)
+                elif inspect.isfunction(obj) and getattr(obj, "__module__", None) == mod.__name__:
+                    add_defaults("%s.%s" % (mod.__name__, name), obj)
+                else:
+                    add("%s.%s" % (mod.__name__, name), obj)
+
+    def check_restore(self):
+        """Names of library-global containers a run has changed (restored in place)."""
+        import copy
+        changed = []
+        for label, obj, saved, fp in self.items:
+            if fingerprint(obj) != fp:
+                changed.append(label)
+                fresh = copy.deepcopy(saved)
+                if isinstance(obj, dict):
+                    obj.clear()
+                    obj.update(fresh)
+                elif isinstance(obj, list):
+                    obj[:] = fresh
+                else:
+                    obj.clear()
+                    obj.update(fresh)
+        return changed
